@@ -18,7 +18,7 @@ RULE = ("generated families biased to what the code generator groups (adjacent I
 ASSUMPTIONS = ["the generic loop is the reference", "Data(n) values are always exactly n bytes long (a 3-byte string is not a value of Data(2))",
                "error locations are not compared here (C12 owns them), only success/PacketError and results"]
 
-PROF = gen.profile(move=0.12, describe=True, regex_unkept=False, relpos_p=0.6,
+PROF = gen.profile(defaults=0.3, move=0.12, describe=True, regex_unkept=False, relpos_p=0.6,
                    w={"int": 9, "data": 5, "bits": 2, "ref": 3, "refsel": 1, "seq": 3, "opt": 2, "em": 1})
 QUICK_COMBOS = [
     {"generate_for_pack": True, "generate_for_unpack": True, "vectorize": True, "annotate": True},
